@@ -462,3 +462,6 @@ def run(tier, seed):
     shards.sort(key=lambda s: 0 if s[0] == "ind" or (s[0] == "values" and s[1] == 3) else 1)
     col = run_shards(_shard, shards)
     return col, {"exhaustive": True}
+
+
+RULE += (' The same value queries and tag queries on a problem loaded back from a store (ProblemViewDataStore) whose parameter and cost names are in reverse lexical order (histories of 1 and 2 individuals, all criteria).')
